@@ -132,6 +132,12 @@ pub(crate) fn tokenize(
 
                     next_fileid += tokresult.filenames.len();
 
+                    // files that were included by the included file are all represented
+                    // by the current include directive when the data is written
+                    for nested_filename in tokresult.filenames.iter_mut().skip(1) {
+                        nested_filename.incname = incname.to_owned();
+                    }
+
                     // append the tokens from the included file(s)
                     tokens.append(&mut tokresult.tokens);
 
